@@ -3,6 +3,7 @@ package sim
 import (
 	"fmt"
 	"math/rand/v2"
+	"strings"
 	"time"
 )
 
@@ -73,6 +74,16 @@ func genFOBase(r *rand.Rand, sh foShape) *Scenario {
 	nk := 1 + r.IntN(sh.maxKeys)
 	for i := 0; i < nk; i++ {
 		fo.Keys = append(fo.Keys, fmt.Sprintf("k%d", i))
+	}
+
+	if chance(r, 0.12) {
+		// unusual but valid keys: empty, NUL bytes, a key that extends another one, long, non-ASCII
+		odd := []string{"", "\x00", "k0\x00", strings.Repeat("L", 300), "ключ", "k0"}
+		r.Shuffle(len(odd), func(i, j int) { odd[i], odd[j] = odd[j], odd[i] })
+
+		for i := 0; i < nk && i < len(odd); i++ {
+			fo.Keys[i] = odd[i]
+		}
 	}
 
 	for i := 0; i < nk; i++ {
@@ -321,7 +332,8 @@ func shrinkFO(sc *Scenario, yield func(c *Scenario) bool) {
 
 	// configuration back to defaults
 	cfgMods := []func(c *FOScenario) bool{
-		func(c *FOScenario) bool { ok := c.Cfg.Logger; c.Cfg.Logger = false; return ok },
+		func(c *FOScenario) bool { ok := c.Cfg.Logger; c.Cfg.Logger, c.Cfg.LogMask = false, 0; return ok },
+		func(c *FOScenario) bool { ok := c.Cfg.LogMask != 0; c.Cfg.LogMask = 0; return ok },
 		func(c *FOScenario) bool {
 			ok := c.Cfg.Stats
 			c.Cfg.Stats = false
